@@ -23,11 +23,21 @@ pub struct Case {
 pub const CAP: f64 = 1e6;
 pub const SEP: f64 = 1e-12;
 
+/// a case whose indicator is built with Default::default(); its cfg holds the documented default parameters
+#[derive(Clone, Debug, Serialize, Deserialize)]
+pub struct DCase {
+    pub case: Case,
+}
+
 pub fn check(c: &Case, ctx: &mut Ctx) -> Result<(), Failure> {
+    check_with(c, ctx, false)
+}
+
+pub fn check_with(c: &Case, ctx: &mut Ctx, via_default: bool) -> Result<(), Failure> {
     let k = c.cfg.kind;
     let p = c.cfg.params();
     let n = c.cfg.n();
-    let mut ind = Ind::build(k, &p).map_err(|_| Failure { signature: "C03:harness".into(), detail: "HARNESS build".into() })?;
+    let mut ind = if via_default { Ind::default_of(k) } else { Ind::build(k, &p).map_err(|_| Failure { signature: "C03:harness".into(), detail: "HARNESS build".into() })? };
     let len = if c.scalar { c.xs.len() } else { c.bars.len() };
     let name = k.name();
     let mut fp = Fp::new("C03");
@@ -323,6 +333,26 @@ pub fn run(g: &mut Global) {
         "MFI: c = largest single-bar flow since start / window total flow; windows containing an ambiguous typical-price comparison (neither identical bars, nor separated by 1e-12 relative, nor exactly representable sums) are skipped".into(),
         "RSI: both averages seeded with 0.1 at the first input as documented".into(),
     ];
+    // instances obtained from Default::default() follow the same formulas with the documented default parameters
+    // (a Default assembled from component defaults can report one period and compute with another)
+    let seedd = g.seed;
+    let nsk = SK.len() as u64;
+    let nbk = BK.len() as u64;
+    g.exhaustive(
+        "defaults",
+        (nsk + nbk) * 16,
+        &move |i| {
+            let j = i % (nsk + nbk);
+            let r = i / (nsk + nbk);
+            let mut gen = crate::props::c13::Gen::new(seedd ^ (i + 1).wrapping_mul(0x9E3779B97F4A7C15), [0usize, 3, 1, 4][(r % 4) as usize], 3.7, 5);
+            if j < nsk {
+                DCase { case: Case { cfg: crate::hist::cfg_default(SK[j as usize]), scalar: true, xs: (0..200).map(|_| X(gen.next())).collect(), bars: vec![], stride: 0 } }
+            } else {
+                DCase { case: Case { cfg: crate::hist::cfg_default(BK[(j - nsk) as usize]), scalar: false, xs: vec![], bars: (0..200).map(|_| gen.bar()).collect(), stride: 0 } }
+            }
+        },
+        &|d: &DCase, ctx: &mut Ctx| check_with(&d.case, ctx, true),
+    );
     let sc = scalar_cfgs();
     let bc = bar_cfgs();
     let d1 = g.tier.pick(7usize, 9usize);
